@@ -157,6 +157,20 @@ def decimal_sources():
     return out
 
 
+def hex_sources():
+    """Every \\xhh escape in every letter-case spelling, followed by nothing / a hex digit / a letter."""
+    out = []
+    for v in range(256):
+        lo = b'%02x' % v
+        sp = sorted({lo, lo.upper(), lo[:1].upper() + lo[1:], lo[:1] + lo[1:].upper()})
+        for spelling in sp:
+            for tail, tc in ((b'', 'end'), (b'f', 'hexdigit'), (b'F', 'hexdigit'), (b'7', 'digit'), (b'q', 'letter')):
+                for q in (b'"', b"'"):
+                    out.append((b'x=' + q + b'a\\x' + spelling + tail + q, 'hex-%s-then-%s' % (
+                        'lower' if spelling == lo and not lo.isdigit() else 'digits' if lo.isdigit() else 'upper-or-mixed', tc)))
+    return out
+
+
 def rawbyte_sources():
     out = []
     for b in range(1, 256):
@@ -212,7 +226,7 @@ def shards(tier, seed):
     n = 48 if tier == 'quick' else 256
     step = (total + n - 1) // n
     items = [('strings', lo, min(total, lo + step)) for lo in range(0, total, step)]
-    items += [('decimal',), ('rawbytes',), ('long',), ('misc',), ('cli',), ('twostrings',)]
+    items += [('decimal',), ('hexesc',), ('rawbytes',), ('long',), ('misc',), ('cli',), ('twostrings',)]
     try:
         from props import c08
         items += c08.program_shards(tier, seed, tag='c06')
@@ -243,6 +257,12 @@ def run_shard(item):
             if probs:
                 report(src, probs, res, 'decimal', cls)
         res.sample({'src': decimal_sources()[30][0]})
+    elif kind == 'hexesc':
+        for src, cls in hex_sources():
+            probs = check_source(src, res, 'hexesc')
+            if probs:
+                report(src, probs, res, 'hexesc', cls)
+        res.sample({'src': hex_sources()[2000][0]})
     elif kind == 'rawbytes':
         for src, cls in rawbyte_sources():
             for s2, ch in layout_variants(src):
